@@ -80,7 +80,7 @@ def corrupt(case, blocks, h, where, r):
 
 def explore(ck):
     r = ck.rng; quick = ck.tier == 'quick'
-    ck.rule = ('consistent chains with 1..%d transactions per block (every merkle tree shape up to 3 levels wide of 128+: counts %s), block 0 the real genesis block of 7 coins or --start >= 1; plaintext and XOR-obfuscated directories; scripts and witness items of 10 001..70 000 bytes, over-long CompactSize encodings in every 7th transaction and in block transaction counts (the txid commits to the on-disk bytes); '
+    ck.rule = ('consistent chains with 1..%d transactions per block, blocks of more than 1 000 000 bytes (thorough: more than 4 000 000) on rotating coins (every merkle tree shape up to 3 levels wide of 128+: counts %s), block 0 the real genesis block of 7 coins or --start >= 1; plaintext and XOR-obfuscated directories; scripts and witness items of 10 001..70 000 bytes, over-long CompactSize encodings in every 7th transaction and in block transaction counts (the txid commits to the on-disk bytes); '
                'block 0 replaced by the genesis block of another network or coin (regtest, signet, the supported coins among each other); each chain is also run with one bit flipped in the merkle-root field, the prev-hash field, transaction bytes covered by a txid (version/outpoint/value/locktime; the top bit of an input count, script length or output count, which in the last block makes the parser run past the end of the file) or a witness byte '
                '(not covered: must still pass), at every --start offset incl. corruption exactly at the first processed block and outside the range; expected from the generator: fails at the corrupted '
                'height iff it is processed. Non-trivial: passing case with >= 2 txs in a block, or a corrupted case; distinct by (counts, start, corruption).' % ((258 if quick else 1025), COUNTS_Q if quick else COUNTS_T))
@@ -127,7 +127,31 @@ def explore(ck):
         for h, b in enumerate([g0, b1]):
             off = c.put_block(0, b.raw); c.add_record(b, h, 0, off); place[h] = (0, off)
         c.verify = True; c.meta.update(counts=[1, 1], place=place, corrupt=(0, 'foreign-genesis')); cases.append(c); expect[c.id] = 0
+    # consistent chains with a block of more than 1 000 000 bytes (and, thorough, more than 4 000 000): the three conditions hold, so --verify accepts them on every coin -
+    # no size rule of any network is among the conditions
+    bigs = [(gen.ALL_COINS[(ck.seed + 2) % 8], 1050000), (gen.ALL_COINS[(ck.seed + 4) % 8], 1000001)] if quick else [(cn, 1050000) for cn in gen.ALL_COINS] + [('bitcoin', 4100000), ('litecoin', 4000001), ('dogecoin', 4100000)]
+    for k6, (coin, total) in enumerate(bigs):
+        b0 = Block(b'\x00' * 32, [coinbase_tx(0, [(50 * 10**8, P2PKH(gen.rb(r, 20)))], extra=gen.rb(r, 2))], time=1300000000)
+        b1 = Block(b0.hash, [coinbase_tx(1, [(50 * 10**8, P2PKH(gen.rb(r, 20)))], extra=gen.rb(r, 2))], time=1300000001)
+        nbig = total // 95000 + 1
+        t2 = [coinbase_tx(2, [(50 * 10**8, P2PKH(gen.rb(r, 20)))], extra=gen.rb(r, 2))] + [Tx([(gen.rb(r, 32), j, b'', 0)], [(0, b'\x6a' + bytes([j]) * 95000), (j, P2PKH(gen.rb(r, 20)))]) for j in range(nbig)]
+        b2 = Block(b1.hash, t2, time=1300000002); assert len(b2.raw) > total
+        b3 = Block(b2.hash, [coinbase_tx(3, [(50 * 10**8, P2PKH(gen.rb(r, 20)))], extra=gen.rb(r, 2))], time=1300000003)
+        c = Case('bigblock%d_%s' % (k6, coin), coin); place = {}
+        for h, b in enumerate([b0, b1, b2, b3]):
+            off = c.put_block(0, b.raw); c.add_record(b, h, 0, off); place[h] = (0, off)
+        c.verify = True; c.start = 1; c.meta.update(counts=[1, 1, nbig + 1, 1], place=place, fixed=True); cases.append(c); expect[c.id] = None
     cbs = lambda c: ['csv']
+    # (the extracted model needs more than 20 minutes for a block of a megabyte - its hash functions run on lists of N - so these cases are judged against the generator's expectation only:
+    #  the chain is consistent by construction, the run must exit 0 and leave exactly its four final-named files)
+    bigcases = [c for c in cases if c.id.startswith('bigblock')]; cases = [c for c in cases if not c.id.startswith('bigblock')]
+    def onebig(c): return c, run.run_impl(ck.tools, c, 'csv', timeout=300)
+    with __import__('concurrent.futures').futures.ThreadPoolExecutor(4) as ex: bigres = list(ex.map(onebig, bigcases))
+    for c, rr in bigres:
+        ck.evaluated(); ck.count('consistent chains with a block > 1 000 000 bytes'); ck.nontrivial((c.id, 'bigblock')); c.meta['cbs'] = ['csv']
+        want = sorted('%s-1-3.csv' % st_ for st_ in run.stems('csv'))
+        if rr.rc != 0 or sorted(rr.files) != want:
+            ck.disagreement('--verify rejects a consistent chain with a block of %d bytes (%s)' % (max(len(d) for e in c.files.values() for o, d in e), c.coin), 'exit %s, files %s, expected exit 0 and %s\n%s' % (rr.rc, sorted(rr.files), want, rr.stderr[-300:]), c, in_domain=True)
     models = run.run_model(ck.tools, cases, ['csv'])
     from concurrent.futures import ThreadPoolExecutor
     def one(c): return c, run.run_impl(ck.tools, c, 'csv')
